@@ -1326,12 +1326,14 @@ class Evaluator:
 
     def index(self, node, p):
         if isinstance(node, ast.Slice):
-            return (
-                "slice",
-                self.expr(node.lower, p) if node.lower else None,
-                self.expr(node.upper, p) if node.upper else None,
-                self.expr(node.step, p) if node.step else None,
-            )
+            lo = self.expr(node.lower, p) if node.lower else None
+            st = self.expr(node.step, p) if node.step else None
+            # normal form: x[0:n] is x[:n] and a step of 1 is no step (for every sequence type)
+            if lo == ("const", 0) and st in (None, ("const", 1)):
+                lo = None
+            if st == ("const", 1):
+                st = None
+            return ("slice", lo, self.expr(node.upper, p) if node.upper else None, st)
         return self.expr(node, p)
 
     def name(self, n, p):
